@@ -106,6 +106,24 @@ SimMoves(q) == LineMovesQ(q) \cup StackMovesQ(q) \cup ColMovesQ(q)
                \cup {D(g, 0, B, B, "c") : g \in {8, 12, 16}} \cup {R(0, 0, B, B, "c"), R(1, 0, B, B, "c"), Other}
 
 CoverMoves(q) == MixMovesQ(q) \cup ColMovesQ(q)
+\* ------------------------------------------------------------------ nested extents inside one box
+\* a tall line and, not consecutive in the content (a glyph far below comes between), a shorter line printed over it
+\* whose vertical extent lies inside the tall one's (also: same top, same bottom, narrower).  Two glyphs per line and
+\* transposition give the same for vertical boxes (x-extents nested, right-to-left rule).
+FirstNest(q) == {[m |-> "A", bb |-> <<376, 388, 384, 400>>, t |-> "c"]}
+NestMoves(q) == {R(0, 0, B, 12, "c"), R(0, 0, B, B, "c"), D(40, 0, B, B, "c"),
+                 C(0 - 16, 0 - 2, B, B, "c"), C(0 - 8, 0 - 2, 6, B, "c")}
+NestMovesT(q) == NestMoves(q) \cup {C(0 - 8, 0 - 2, B, B, "c"), C(0 - 8, 0, B, B, "c"), C(0 - 8, 0 - 4, B, B, "c"), C(0 - 16, 0 - 1, B, 10, "c")}
+ParamsNest == {[Default(FALSE) EXCEPT !.bf = None], Default(TRUE)}
+ParamsNestT == {Default(FALSE), [Default(FALSE) EXCEPT !.bf = None], Default(TRUE), [Default(TRUE) EXCEPT !.bf = None],
+                [Default(FALSE) EXCEPT !.lm = <<1, 1>>]}
+\* ------------------------------------------------------------------ degenerate first members
+\* a line whose first glyph has no width (advance 0: combining mark) or no height and lies outside the glyphs that follow
+FirstDegen(q) == {[m |-> "A", bb |-> <<376, 392, 376, 400>>, t |-> "c"], [m |-> "A", bb |-> <<376, 396, 384, 396>>, t |-> "c"],
+                  [m |-> "A", bb |-> <<376, 392, 384, 400>>, t |-> "c"]}
+DegenMoves(q) == {R(3, 0, B, B, "c"), R(3, 0 - 4, B, B, "c"), R(0, 0, B, B, "c"), R(3, 0, 0, B, "c"), R(3, 4, B, 0, "c"),
+                  D(3, 0, B, B, "c"), D(3, 0 - 3, 0, B, "c")}
+ParamsDegen == {Default(FALSE), Default(TRUE), [Default(FALSE) EXCEPT !.bf = None]}
 NoDev == {}
 PageOnly == {"page"}
 PageAndFigure == {"page", "figure"}
